@@ -6,9 +6,10 @@
 // World content: points p0..p3 (namespace "v"), tag keys t0..t3; model key = feature*8 + tag index, values
 // are small numbers.  World IDs 0..2 are the roots /collection/r/<n>.
 //
-//   base {k=v,…}        => {k=v,…}        content of a fresh world (the service's base world)
-//   worlds []           => []             no world exists yet
-//   round [req …]       => [wid:{…} …]    the worlds after all requests of the round returned
+//	base {k=v,…}        => {k=v,…}        content of a fresh world (the service's base world)
+//	worlds []           => []             no world exists yet
+//	round [req …]       => [wid:{…} …]    the worlds after all requests of the round returned
+//
 // requests: q<wid> | d<wid> | l | c<wid>(rule;…), rule = [<k>? | <k>!](+k=v | -k)
 //
 // A change request is an expression calling a function symbol registered by the harness: it evaluates the
@@ -57,10 +58,11 @@ type Rule struct {
 }
 
 type Req struct {
-	Kind  string `json:"kind"` // q c d l
-	Wid   int    `json:"wid"`
-	Rules []Rule `json:"rules"`
-	Shell bool   `json:"shell"` // send a blind single set as `add-tag`
+	Kind   string `json:"kind"` // q c d l, a = add-world-with-change (evaluated on Wid, replaces world Target)
+	Wid    int    `json:"wid"`
+	Target int    `json:"target"`
+	Rules  []Rule `json:"rules"`
+	Shell  bool   `json:"shell"` // send a blind single set as `add-tag`
 	// Atomic: built as a MergedChange of one part per rule, so a failing part leaves nothing applied; in the op
 	// text the failing rules are then written first (same outcome for the model's stop-at-first-failure list)
 	Atomic bool `json:"atomic"`
@@ -117,6 +119,9 @@ func (q Req) text() string {
 			rs = append(rs, r.text())
 		}
 	}
+	if q.Kind == "a" {
+		return fmt.Sprintf("a%dt%d(%s)", q.Wid, q.Target, strings.Join(rs, ";"))
+	}
 	return fmt.Sprintf("c%d(%s)", q.Wid, strings.Join(rs, ";"))
 }
 
@@ -131,7 +136,9 @@ func worldText(kv [][2]int) string {
 
 // ---- worker side: the real service ---------------------------------------------------------------
 
-func pid(f int) b6.FeatureID { return b6.FeatureID{Type: b6.FeatureTypePoint, Namespace: "v", Value: uint64(f)} }
+func pid(f int) b6.FeatureID {
+	return b6.FeatureID{Type: b6.FeatureTypePoint, Namespace: "v", Value: uint64(f)}
+}
 func root(w int) b6.FeatureID {
 	return b6.FeatureID{Type: b6.FeatureTypeCollection, Namespace: "r", Value: uint64(w)}
 }
@@ -262,6 +269,8 @@ func request(i int, q Req) *pb.EvaluateRequestProto {
 	switch q.Kind {
 	case "q":
 		e = fmt.Sprintf("verif-c40-read %d", i)
+	case "a":
+		e = fmt.Sprintf("add-world-with-change /%s (verif-c40-change %d)", root(q.Target).String(), i)
 	case "c":
 		e = fmt.Sprintf("verif-c40-change %d", i)
 		if shellForm(q) {
@@ -301,20 +310,77 @@ func shellForm(q Req) bool {
 	return q.Kind == "c" && q.Shell && len(q.Rules) == 1 && q.Rules[0].G < 0 && q.Rules[0].Set && q.Rules[0].Fail == 0
 }
 
-func (s *sut) issue(q Req, request *pb.EvaluateRequestProto) {
+// decode renders an Evaluate response: e = error, i<f.f.f> = the returned feature IDs (values), n<k> = an integer
+func decode(resp *pb.EvaluateResponseProto, err error) string {
+	if err != nil {
+		return "e"
+	}
+	ex, err := b6.ExpressionFromProto(resp.Result)
+	if err != nil {
+		return "undecodable"
+	}
+	switch v := ex.AnyExpression.(type) {
+	case b6.IntExpression:
+		return fmt.Sprintf("n%d", int(v))
+	case b6.CollectionExpression:
+		var xs []string
+		i := v.BeginUntyped()
+		for {
+			ok, err := i.Next()
+			if err != nil {
+				return "undecodable"
+			}
+			if !ok {
+				break
+			}
+			if id, ok := i.Key().(b6.FeatureID); ok {
+				xs = append(xs, fmt.Sprintf("%d", id.Value))
+			} else {
+				return "undecodable"
+			}
+		}
+		return "i" + strings.Join(xs, ".")
+	}
+	return "other"
+}
+
+// issue sends the request and renders its response (compared with the response the request has at its position in a
+// serial order)
+func (s *sut) issue(q Req, request *pb.EvaluateRequestProto) string {
 	ctx := context.Background()
 	switch q.Kind {
 	case "q":
-		s.svc.Evaluate(ctx, request)
-	case "c":
-		if _, err := s.svc.Evaluate(ctx, request); err != nil && !mayFail(q) {
+		return decode(s.svc.Evaluate(ctx, request))
+	case "c", "a":
+		resp, err := s.svc.Evaluate(ctx, request)
+		if err != nil && !mayFail(q) {
 			panic("harness: change request failed: " + err.Error())
 		}
+		return decode(resp, err)
 	case "d":
 		s.svc.DeleteWorld(ctx, &pb.DeleteWorldRequestProto{Id: b6.NewProtoFromFeatureID(root(q.Wid))})
+		return "-"
 	case "l":
-		s.svc.ListWorlds(ctx, &pb.ListWorldsRequestProto{})
+		resp, err := s.svc.ListWorlds(ctx, &pb.ListWorldsRequestProto{})
+		if err != nil {
+			return "e"
+		}
+		var ws []int
+		for _, id := range resp.Ids {
+			fid := b6.NewFeatureIDFromProto(id)
+			if fid == ingest.DefaultWorldFeatureID {
+				return "wd"
+			}
+			ws = append(ws, int(fid.Value))
+		}
+		sort.Ints(ws)
+		xs := make([]string, len(ws))
+		for i, w := range ws {
+			xs[i] = fmt.Sprintf("%d", w)
+		}
+		return "w" + strings.Join(xs, ".")
 	}
+	return "?"
 }
 
 func (s *sut) view() string {
@@ -344,16 +410,17 @@ func (s *sut) view() string {
 	return hx.List(xs)
 }
 
-// runRound: false = the round did not finish in time
-func (s *sut) runRound(r Round) bool {
+// runRound: nil = the round did not finish in time; otherwise the response of every request
+func (s *sut) runRound(r Round) []string {
 	rs := &roundState{reqs: r.Reqs, rv: r.Rendezvous, all: make(chan struct{})}
 	for _, q := range r.Reqs {
-		if q.Kind == "c" && !shellForm(q) {
+		if (q.Kind == "c" || q.Kind == "a") && !shellForm(q) {
 			rs.want++
 		}
 	}
 	current = rs
 	var wg sync.WaitGroup
+	responses := make([]string, len(r.Reqs))
 	requests := make([]*pb.EvaluateRequestProto, len(r.Reqs))
 	for i, q := range r.Reqs {
 		requests[i] = request(i, q)
@@ -365,16 +432,16 @@ func (s *sut) runRound(r Round) bool {
 			if i < len(r.Jitter) && r.Jitter[i] > 0 {
 				time.Sleep(time.Duration(r.Jitter[i]) * time.Microsecond)
 			}
-			s.issue(q, requests[i])
+			responses[i] = s.issue(q, requests[i])
 		}(i, q)
 	}
 	done := make(chan struct{})
 	go func() { wg.Wait(); close(done) }()
 	select {
 	case <-done:
-		return true
+		return responses
 	case <-time.After(3 * time.Second):
-		return false
+		return nil
 	}
 }
 
@@ -390,12 +457,13 @@ func workerLoop() {
 			}
 			s := newSUT(p.Base)
 			for _, r := range p.Rounds {
-				if !s.runRound(r) {
+				responses := s.runRound(r)
+				if responses == nil {
 					fmt.Fprintln(out, "HANG")
 					out.Flush()
 					select {} // the parent kills this process
 				}
-				fmt.Fprintln(out, s.view())
+				fmt.Fprintln(out, s.view()+" ## "+strings.Join(responses, " "))
 				out.Flush()
 			}
 			fmt.Fprintln(out, "END")
@@ -439,7 +507,13 @@ func execute(c *hx.Ctx, p Plan) {
 		for j, q := range p.Rounds[i].Reqs {
 			texts[j] = q.text()
 		}
-		c.Op("round "+hx.List(texts), a)
+		op := "round "
+		for _, q := range p.Rounds[i].Reqs {
+			if q.Kind == "a" {
+				op = "round-addworld "
+			}
+		}
+		c.Op(op+hx.List(texts), a)
 		if a == "hang" {
 			hangs++
 		}
@@ -605,6 +679,15 @@ func corpus(c *hx.Ctx) {
 	p.Rounds = append(p.Rounds, Round{Rendezvous: true, Reqs: []Req{merged, {Kind: "q", Wid: 0}, partial}})
 	p.Rounds = append(p.Rounds, Round{Reqs: []Req{failOne, failOne, {Kind: "c", Wid: 1, Rules: []Rule{{G: -1, K: 403, Fail: 2}}}, {Kind: "l"}}})
 	execute(c, p)
+	// add-world-with-change: deletes, re-creates and WRITES world 2 inside the read phase (under RLock only), next
+	// to readers of world 2 and of the world list — a separate plan: a race report ends the worker
+	aw := Plan{Base: [][2]int{{0, 1}}}
+	for i := 0; i < 6; i++ {
+		aw.Rounds = append(aw.Rounds, Round{Rendezvous: false, Reqs: []Req{
+			{Kind: "a", Wid: 0, Target: 2, Rules: []Rule{{G: -1, Set: true, K: 1, V: 1 + i}, {G: -1, Set: true, K: 9, V: 2}, {G: -1, Set: true, K: 17, V: 3}}},
+			{Kind: "q", Wid: 2}, {Kind: "q", Wid: 2}, {Kind: "l"}}})
+	}
+	execute(c, aw)
 	c.NonTrivial()
 }
 
